@@ -9,7 +9,9 @@ from ..absval import abstractor
 from ..engine import Engine
 from ..model import AnalysisError, dotted, norm
 from ..report import Report
-from .common import linear_factor, own_nodes, returns
+from .. import sym
+from .common import own_nodes
+from .symutil import S, all_of, any_lit, arg, elem_of, has, is_, mentions, sh, unobj
 
 EXPLANATION = (
     "TABLE: the state order used by the emulator (STATES_RANK, EIGENSTATES) agrees with the documented vector convention (docs/source/conventions.md: |r>,|g>,|h>; ground-rydberg r,g; digital g,h) and with the operator labels used to "
@@ -19,7 +21,7 @@ EXPLANATION = (
     "expressions. GUARD: make_xy_term iff the interaction is 'XY', vdW otherwise; SLM-masked pairs are skipped only in XY; the interaction is built iff 'digital' is not the basis; C6/R^6 and C3(1-3cos^2)/R^3 shapes (powers). "
     "NOT decided: every matrix entry / numeric equality with the formula (runtime)."
 )
-ASSUMPTIONS = ["structural match of coefficient expressions; the documented convention is read from docs/source/conventions.md"]
+ASSUMPTIONS = ["coefficient formulas are matched on the symbolic normal form (pstatic/sym.py) up to permutation of factors; operator products (|x><y|) are matched in order", "the documented convention is read from docs/source/conventions.md"]
 
 HAM = "pulser_simulation.hamiltonian.Hamiltonian"
 
@@ -51,109 +53,176 @@ def run(E: Engine, rep: Report, tier: str) -> dict:
     bco = ch.nested.get("build_coeffs_ops")
     if bco is None:
         raise AnalysisError("anchor: build_coeffs_ops not found")
+    Sb = S(E, bco)
+    appends = [l for l in Sb.log if l.fn == bco.short and l.kind == "call" and l.target is not None and l.target[0] == "attr" and l.target[2] == "append" and l.value[2] and l.value[2][0][0] == "list" and len(l.value[2][0]) == 3]
+    if len(appends) < 2:
+        raise AnalysisError(f"anchor: expected the Global and the Local branch of build_coeffs_ops to append [operator, coefficient] terms, found {len(appends)}")
+
+    def zip_source(t):
+        """t = elem(zip(A, B))#i  ->  (the zip element, i, A or B)"""
+        if t[0] == "item" and t[1][0] == "elem" and t[1][1][0] == "call" and t[1][1][1] == ("name", "zip") and isinstance(t[2], int) and t[2] < len(t[1][1][2]):
+            return t[1], t[2], t[1][1][2][t[2]]
+        return None
+
+    def table_of(t) -> dict:
+        out = {}
+        t = unobj(t)
+        while t[0] == "ifexp":
+            m = is_(t[1], "basis == Q_l")
+            if m is None or m["Q_l"][0] != "const" or t[2][0] != "list":
+                break
+            out[m["Q_l"][1]] = [x[1] for x in t[2][1:] if x[0] == "const"]
+            t = t[3]
+        if t[0] == "idx" and t[2] == ("name", "basis"):
+            d = t[1]
+            if d[0] == "name":
+                try:
+                    v = P.fold(bco.module, bco.module.assigns[d[1]])
+                    out.update({k: list(x) for k, x in v.items()})
+                except Exception:
+                    pass
+            elif d[0] == "dict":
+                for k, x in d[1:]:
+                    if k[0] == "const" and x[0] in ("list", "tuple"):
+                        out[k[1]] = [y[1] for y in x[1:] if y[0] == "const"]
+        return out
+
+    branches = {}
+    for l in appends:
+        opt, coeft = l.value[2][0][1], l.value[2][0][2]
+        cz = next((zip_source(x) for x in sym.subterms(coeft) if zip_source(x) is not None), None)
+        oz = next((zip_source(x) for x in sym.subterms(opt) if zip_source(x) is not None), None)
+        which = "Global" if any(is_(x, "addr == 'Global'") is not None for x in sym.conj_of(l.cond)) else "Local" if any(is_(x, "addr == 'Local'") is not None for x in sym.conj_of(l.cond)) else "?"
+        branches[which] = (l, oz, cz)
     op_ids = {}
-    for n in ast.walk(bco.node):
-        if isinstance(n, ast.If) and isinstance(n.test, ast.Compare) and norm(n.test.left) == "basis" and isinstance(n.test.comparators[0], ast.Constant):
-            for s in n.body:
-                if isinstance(s, ast.Assign) and norm(s.targets[0]) == "op_ids" and isinstance(s.value, ast.List):
-                    op_ids[n.test.comparators[0].value] = [e.value for e in s.value.elts if isinstance(e, ast.Constant)]
+    for which, (l, oz, cz) in sorted(branches.items()):
+        ok = oz is not None and cz is not None and oz[0] == cz[0] and oz[1] != cz[1]
+        rep.check(ok, "SIB", f"build_coeffs_ops|ops-zipped-with-coeffs|{which}", "operator k is paired with coefficient k (same zip element)", f"in the {which} branch the operator id and the coefficient do not come from the same zip element: {sh(l.value, 200)}", E.where(bco, l.node))
+        if ok and not op_ids:
+            op_ids = table_of(oz[2])
     for b, st in eig.items():
         a, b2 = st
         want = ["sigma_" + b2 + a, "sigma_" + a + a]
         rep.check(op_ids.get(b) == want, "TABLE", f"build_coeffs_ops|op_ids|{b}", f"{want}", f"drive operators for basis '{b}' are {op_ids.get(b)}, the documented formula needs {want} (|{b2}><{a}| for the drive, |{a}><{a}| for the detuning)", E.where(bco))
     # _get_basis_op_matrices
     gb = E.method(HAM, "_get_basis_op_matrices")
-    src = norm(gb.node)
-    rep.check("qutip.basis(dim, i) for i, b in enumerate(eigenbasis)" in src, "TABLE", "_get_basis_op_matrices|basis-by-position", "basis vector i <-> i-th eigenstate", "basis vectors are no longer placed by position in the eigenbasis", E.where(gb))
+    Sg = S(E, gb)
+    r = Sg.ret
+    bt = unobj(r[1]) if r[0] == "tuple" and len(r) == 3 else None
+    ok = bt is not None and bt[0] == "comp" and bt[1] == "dict" and len(bt[3]) == 1 and bt[3][0][0] == sym.Pattern("enumerate(eigenbasis)").term
+    if ok:
+        e_ = bt[2][1][1] if bt[2][1][0] == "item" else None
+        ok = e_ is not None and elem_of(e_, bt[3][0][0]) and bt[2][1] == ("item", e_, 1) and is_(bt[2][2], "qutip.basis(Q_dim, Q_i)") is not None and is_(bt[2][2], "qutip.basis(Q_dim, Q_i)")["Q_i"] == ("item", e_, 0)
+    rep.check(bool(ok), "TABLE", "_get_basis_op_matrices|basis-by-position", "basis vector i <-> i-th eigenstate", f"basis vectors are no longer placed by position in the eigenbasis: {sh(bt, 160)}", E.where(gb))
+    pairs = []
+    for l in Sg.log:
+        if l.fn != gb.short:
+            continue
+        if l.kind == "store" and l.target is not None and l.target[0] == "idx":
+            pairs.append((l.target[2], l.value))
+        if l.kind == "call" and l.target is not None and l.target[0] == "attr" and l.target[2] == "update" and l.value[2] and unobj(l.value[2][0])[0] == "comp" and unobj(l.value[2][0])[1] == "dict":
+            kv = unobj(l.value[2][0])[2]
+            pairs.append((kv[1], kv[2]))
     ok = False
-    for n in own_nodes(gb):
-        if isinstance(n, ast.Assign) and "op_matrix[proj_name]" in norm(n.targets[0]):
-            ok = norm(n.value).replace(" ", "") == "basis[proj0]*basis[proj1].dag()"
-    name_ok = any(isinstance(n, ast.Assign) and norm(n.targets[0]) == "proj_name" and norm(n.value).replace(" ", "") == "'sigma_'+proj0+proj1" for n in own_nodes(gb))
-    rep.check(ok and name_ok, "TABLE", "_get_basis_op_matrices|sigma_xy=|x><y|", "sigma_xy = |x><y|", "the projector naming changed (sigma_xy must be |x><y|)", E.where(gb))
+    for k, v in pairs:
+        m = is_(k, "'sigma_' + Q_a + Q_b")
+        if m is None:
+            continue
+        # ordered operator product |a><b| = basis[a] * basis[b].dag()
+        ok = v[0] == "mul" and len(v) == 3 and is_(v[1], "Q_B[Q_a]", {"Q_a": m["Q_a"]}) is not None and is_(v[2], "Q_B[Q_b].dag()", {"Q_b": m["Q_b"]}) is not None and m["Q_a"] != m["Q_b"]
+        ok = ok and bt is not None and unobj(is_(v[1], "Q_B[Q_a]")["Q_B"]) == bt
+    rep.check(ok, "TABLE", "_get_basis_op_matrices|sigma_xy=|x><y|", "sigma_xy = |x><y|", f"the projector naming changed (sigma_xy must be basis[x] * basis[y].dag()): {[(sh(k, 40), sh(v, 80)) for k, v in pairs][:3]}", E.where(gb))
     ge = E.method(HAM, "_get_eigenbasis")
-    rep.check("for state in STATES_RANK if state in eigenbasis" in norm(ge.node), "TABLE", "_get_eigenbasis|rank-order", "eigenbasis sorted by STATES_RANK", "the eigenbasis is no longer ordered by STATES_RANK", E.where(ge))
+    r = unobj(S(E, ge).ret)
+    ok = r[0] == "comp" and len(r[3]) == 1 and r[3][0][0] == ("name", "STATES_RANK") and elem_of(r[2], ("name", "STATES_RANK")) and is_(r[3][0][1], "Q_e in Q_eb") is not None
+    rep.check(ok, "TABLE", "_get_eigenbasis|rank-order", "eigenbasis sorted by STATES_RANK", f"the eigenbasis is no longer the STATES_RANK-ordered selection: {sh(r, 120)}", E.where(ge))
     # tensor order
     bo = E.method(HAM, "_build_operator")
-    s2 = norm(bo.node)
-    rep.check("k = self._qid_index[qubit]" in s2 and "op_list[k] = operator" in s2 and "qutip.tensor(op_list)" in s2, "TABLE", "_build_operator|register-tensor-order", "operator placed at the register index of the qubit", "the tensor-product placement of local operators changed", E.where(bo))
+    Sbo = S(E, bo)
+    st = [l for l in Sbo.logged("store") if l.fn == bo.short and l.target is not None and l.target[0] == "idx" and is_(l.target[2], "self._qid_index[Q_q]") is not None]
+    tens = [l for l in Sbo.calls("tensor") if l.fn == bo.short]
+    ok = bool(st) and bool(tens) and all(arg(t, 0) == st[0].target[1] for t in tens) and all(is_(l.target[2], "self._qid_index[Q_q]")["Q_q"][0] == "elem" for l in st)
+    rep.check(ok, "TABLE", "_build_operator|register-tensor-order", "operator placed at the register index of the qubit", "the tensor-product placement of local operators changed (op_list[self._qid_index[qubit]] = operator; qutip.tensor(op_list))", E.where(bo))
     init = E.method(HAM, "__init__")
-    rep.check(any("enumerate(self._qdict)" in norm(n) and "_qid_index" in norm(n) for n in own_nodes(init)), "TABLE", "Hamiltonian|_qid_index-from-register-order", "qubit index = position in the register", "_qid_index is no longer the enumeration of the register's qubits", E.where(init))
+    st = [l for l in S(E, init, inline=False).logged("store") if l.target == ("attr", ("name", "self"), "_qid_index")]
+    ok = False
+    for l in st:
+        c = unobj(l.value)
+        if c[0] == "comp" and c[1] == "dict" and len(c[3]) == 1 and c[3][0][0] == sym.Pattern("enumerate(self._qdict)").term:
+            e_ = c[2][1][1] if c[2][0] == "tuple" and c[2][1][0] == "item" else None
+            ok = e_ is not None and elem_of(e_, c[3][0][0]) and c[2] == ("tuple", ("item", e_, 1), ("item", e_, 0))
+    rep.check(ok, "TABLE", "Hamiltonian|_qid_index-from-register-order", "qubit index = position in the register", "_qid_index is no longer the enumeration of the register's qubits", E.where(init))
     rep.floor("TABLE", 12)
 
     # ---------------------------------------------------------------- SIB
-    lists = []
-    for n in own_nodes(bco):
-        if isinstance(n, ast.Assign) and norm(n.targets[0]) == "coeffs" and isinstance(n.value, ast.List) and len(n.value.elts) == 2:
-            lists.append(n)
-    if len(lists) != 2:
-        raise AnalysisError(f"expected 2 coefficient lists in build_coeffs_ops, found {len(lists)}")
-    def canon(e: ast.AST):
-        f, rest = linear_factor(e)
-        return f, tuple(r.replace("samples_q", "S").replace("samples", "S").replace(" ", "").replace('"', "'") for r in rest)
-
-    g, l = lists
-    rep.check([canon(x) for x in g.value.elts] == [canon(x) for x in l.value.elts], "SIB", "build_coeffs_ops|global-local-same-coefficients", "Global and Local branches build the same coefficient expressions", f"Global {[canon(x) for x in g.value.elts]} vs Local {[canon(x) for x in l.value.elts]}", E.where(bco, l))
-    (fa, ra), (fd, rd) = canon(g.value.elts[0]), canon(g.value.elts[1])
-    exp_ok = False
-    for n in ast.walk(g.value.elts[0]):
-        if isinstance(n, ast.Call) and (dotted(n.func) or "").split(".")[-1] == "exp" and n.args:
-            fe, re_ = canon(n.args[0])
-            exp_ok = fe == -1j and re_ == ("S['phase']",)
-    rep.check(fa == 0.5 and "S['amp']" in ra and len(ra) == 2 and exp_ok, "SIB", "build_coeffs_ops|amp=0.5*amp*exp(-i*phase)", "Omega/2 e^{-i phi}", f"amplitude coefficient is {fa} * {ra}: the documented drive is (Omega/2) e^(-i phi)", E.where(bco, g))
-    rep.check(fd == -0.5 and rd == ("S['det']",), "SIB", "build_coeffs_ops|det=-0.5*det", "-delta/2 before symmetrisation (-> -delta after ham + ham.dag())", f"detuning coefficient is {fd} * {rd}: with the single symmetrisation ham + ham.dag() a Hermitian term must carry -1/2", E.where(bco, g))
-    # zip order op_ids <-> coeffs
-    zs = [norm(n) for n in own_nodes(bco) if isinstance(n, ast.Call) and (dotted(n.func) or "") == "zip"]
-    rep.check(all(("op_ids" in z and "coeffs" in z) for z in zs) and len(zs) == 2, "SIB", "build_coeffs_ops|ops-zipped-with-coeffs", "operators and coefficients paired positionally", f"zip calls: {zs}", E.where(bco))
+    coefs = {}
+    for which, (l, oz, cz) in branches.items():
+        if cz is None or unobj(cz[2])[0] != "list" or len(unobj(cz[2])) != 3:
+            continue
+        lst = unobj(cz[2])
+        # the per-quantity sample source: samples[...] (Global) or the per-qubit samples (Local)
+        m = is_(lst[2], "-0.5 * Q_src['det']")
+        src = m["Q_src"] if m else None
+        coefs[which] = (lst, src)
+    if set(coefs) != {"Global", "Local"}:
+        raise AnalysisError(f"anchor: coefficient lists of build_coeffs_ops not recognised ({sorted(coefs)})")
+    norm_ = {w: sym.subst(lst, lambda x, s_=src: ("name", "SRC") if x == s_ else None) for w, (lst, src) in coefs.items()}
+    rep.check(norm_["Global"] == norm_["Local"] and all(src is not None for _l, src in coefs.values()), "SIB", "build_coeffs_ops|global-local-same-coefficients", "Global and Local branches build the same coefficient expressions", f"Global {sh(norm_['Global'], 160)} vs Local {sh(norm_['Local'], 160)}", E.where(bco))
+    g = coefs["Global"][0]
+    rep.check(is_(g[1], "0.5 * Q_s['amp'] * Q_np.exp(-1j * Q_s['phase'])") is not None, "SIB", "build_coeffs_ops|amp=0.5*amp*exp(-i*phase)", "Omega/2 e^{-i phi}", f"amplitude coefficient is {sh(g[1], 120)}: the documented drive is (Omega/2) e^(-i phi)", E.where(bco))
+    rep.check(is_(g[2], "-0.5 * Q_s['det']") is not None, "SIB", "build_coeffs_ops|det=-0.5*det", "-delta/2 before symmetrisation (-> -delta after ham + ham.dag())", f"detuning coefficient is {sh(g[2], 80)}: with the single symmetrisation ham + ham.dag() a Hermitian term must carry -1/2", E.where(bco))
     # symmetrised exactly once
-    syms = [n for n in own_nodes(ch) if isinstance(n, ast.BinOp) and isinstance(n.op, ast.Add) and norm(n.right).endswith(".dag()") and norm(n.right)[:-6] == norm(n.left)]
-    rep.check(len(syms) == 1 and norm(syms[0]) == "ham + ham.dag()", "PAIR", "_construct_hamiltonian|symmetrised-once", "ham = ham + ham.dag() exactly once", f"{len(syms)} symmetrisations found", E.where(ch))
+    Sc = S(E, ch, inline=False)
+    st = [l for l in Sc.logged("store") if l.fn == ch.short and l.target == ("attr", ("name", "self"), "_hamiltonian")]
+    ok = False
+    for l in st:
+        v = l.value
+        m = is_(v, "Q_h + Q_h.dag()")
+        ok = m is not None and not any(t[0] == "call" and t[1][0] == "attr" and t[1][2] == "dag" for t in sym.subterms(m["Q_h"])) and is_(unobj(m["Q_h"]), "qutip.QobjEvo(Q_l, tlist=Q_t)") is not None
+    rep.check(ok, "PAIR", "_construct_hamiltonian|symmetrised-once", "ham = ham + ham.dag() exactly once", f"the stored Hamiltonian is {[sh(l.value, 120) for l in st]}: it must be QobjEvo(...) + QobjEvo(...).dag(), symmetrised exactly once", E.where(ch))
     vdw = ch.nested.get("make_vdw_term")
     xy = ch.nested.get("make_xy_term")
-    u = [n for n in own_nodes(vdw) if isinstance(n, ast.Assign) and norm(n.targets[0]) == "U"]
-    fu, ru = linear_factor(u[0].value) if u else (None, ())
-    rep.check(bool(u) and fu == 0.5 and ru == ("1/(dist ** 6)", "self._device.interaction_coeff"), "PAIR", "make_vdw_term|half-C6-over-R6", "U = 0.5 * C6 / R^6 (Hermitian term, halved before symmetrisation)", f"vdW coefficient is {norm(u[0].value) if u else '?'}", E.where(vdw))
-    rep.check(any("('sigma_rr', [q1, q2])" in norm(n) for n in own_nodes(vdw)), "PAIR", "make_vdw_term|n_i-n_j", "acts with sigma_rr on both atoms", "the vdW operator is no longer sigma_rr x sigma_rr", E.where(vdw))
-    u = [n for n in own_nodes(xy) if isinstance(n, ast.Assign) and norm(n.targets[0]) == "U"]
-    us = norm(u[0].value).replace(" ", "") if u else ""
-    fx, rx = linear_factor(u[0].value) if u else (None, ())
-    rep.check(fx == 1 and rx == ("1 - 3 * cosine ** 2", "1/(dist ** 3)", "self._device.interaction_coeff_xy"), "PAIR", "make_xy_term|C3(1-3cos^2)/R^3", "U = C3 (1 - 3 cos^2) / R^3 on a non-Hermitian product (no 1/2)", f"XY coefficient is {us}", E.where(xy))
-    # cos(theta) = (r . B) / (|r| |B|): both norms divide
-    cs_ = [n for n in own_nodes(xy) if isinstance(n, ast.Assign) and norm(n.targets[0]) == "cosine"]
-    den = set()
-    norms = {}
-    for n in own_nodes(xy):
-        if isinstance(n, ast.Assign) and isinstance(n.value, ast.Call) and (dotted(n.value.func) or "").endswith("linalg.norm") and isinstance(n.targets[0], ast.Name):
-            norms[n.targets[0].id] = norm(n.value.args[0])
-    for c_ in cs_:
-        for sub in ast.walk(c_.value):
-            if isinstance(sub, ast.BinOp) and isinstance(sub.op, ast.Div):
-                den |= {x.id for x in ast.walk(sub.right) if isinstance(x, ast.Name)}
-    normed = {norms[d] for d in den if d in norms}
-    rep.check(bool(cs_) and {"diff_vector", "mag_field"} <= normed, "PAIR", "make_xy_term|cosine-normalised-by-both-norms", "cos(theta) = r.B / (|r| |B|)", f"the angle cosine is divided by the norms of {sorted(normed)} only: it must be normalised by both the inter-atomic distance and the magnetic-field norm", E.where(xy))
-    rep.check(any("('sigma_ud', [q1]), ('sigma_du', [q2])" in norm(n) for n in own_nodes(xy)), "PAIR", "make_xy_term|exchange-operator", "sigma_ud(q1) sigma_du(q2) (+ h.c. by symmetrisation)", "the XY exchange operator changed", E.where(xy))
+    r = S(E, vdw).ret
+    m = is_(r, "0.5 * self._device.interaction_coeff / Q_dist ** 6 * Q_op")
+    rep.check(m is not None and is_(m["Q_dist"], "np.linalg.norm(self._qdict[q1] - self._qdict[q2])") is not None, "PAIR", "make_vdw_term|half-C6-over-R6", "U = 0.5 * C6 / R^6 (Hermitian term, halved before symmetrisation)", f"vdW term is {sh(r, 200)}", E.where(vdw))
+    rep.check(m is not None and is_(m["Q_op"], "self.build_operator([('sigma_rr', [q1, q2])])") is not None, "PAIR", "make_vdw_term|n_i-n_j", "acts with sigma_rr on both atoms", "the vdW operator is no longer sigma_rr x sigma_rr on (q1, q2)", E.where(vdw))
+    Sx = S(E, xy)
+    r = Sx.ret
+    m = is_(r, "self._device.interaction_coeff_xy * (1 - 3 * Q_cos ** 2) / Q_dist ** 3 * Q_op")
+    rep.check(m is not None, "PAIR", "make_xy_term|C3(1-3cos^2)/R^3", "U = C3 (1 - 3 cos^2) / R^3 on a non-Hermitian product (no 1/2)", f"XY term is {sh(r, 260)}", E.where(xy))
+    mc = is_(m["Q_cos"], "np.dot(Q_d, Q_B) / (np.linalg.norm(Q_d) * np.linalg.norm(Q_B))") if m else None
+    ok = mc is not None and mentions(mc["Q_B"], "_magnetic_field") and is_(m["Q_dist"], "np.linalg.norm(Q_d)", {"Q_d": mc["Q_d"]}) is not None
+    if ok:
+        # Q_d is the difference vector of the two atoms
+        ok = any(l.kind == "store" and l.target is not None and l.target[0] == "idx" and l.target[1] == mc["Q_d"] and is_(l.value, "self._qdict[q1] - self._qdict[q2]") is not None for l in Sx.log) or is_(unobj(mc["Q_d"]), "self._qdict[q1] - self._qdict[q2]") is not None
+    rep.check(bool(ok), "PAIR", "make_xy_term|cosine-normalised-by-both-norms", "cos(theta) = r.B / (|r| |B|) with r the inter-atomic vector", f"the angle cosine is {sh(m['Q_cos'], 200) if m else '?'}: it must be the dot product of the inter-atomic vector and the magnetic field divided by both norms (and R must be that vector's norm)", E.where(xy))
+    rep.check(m is not None and is_(m["Q_op"], "self.build_operator([('sigma_ud', [q1]), ('sigma_du', [q2])])") is not None, "PAIR", "make_xy_term|exchange-operator", "sigma_ud(q1) sigma_du(q2) (+ h.c. by symmetrisation)", "the XY exchange operator changed", E.where(xy))
     rep.floor("SIB", 4)
     rep.floor("PAIR", 6)
 
     # -------------------------------------------------------------- GUARD
     mit = ch.nested.get("make_interaction_term")
-    ab = abstractor(E.flow(mit))
-    sel_ok = False
-    for n in own_nodes(mit):
-        if isinstance(n, ast.If) and norm(n.test).replace('"', "'") == "self._interaction == 'XY'":
-            sel_ok = "make_xy_term" in norm(ast.Module(body=n.body, type_ignores=[])) and "make_vdw_term" in norm(ast.Module(body=n.orelse, type_ignores=[]))
+    Sm = S(E, mit)
+    cx = [l for l in Sm.log if l.fn == mit.short and l.kind == "call" and l.target == ("name", "make_xy_term")]
+    cv = [l for l in Sm.log if l.fn == mit.short and l.kind == "call" and l.target == ("name", "make_vdw_term")]
+    sel_ok = bool(cx) and bool(cv) and all(any(is_(x, "self._interaction == 'XY'") is not None for x in sym.conj_of(l.cond)) for l in cx) and all(any(is_(x, "self._interaction != 'XY'") is not None for x in sym.conj_of(l.cond)) for l in cv)
     rep.check(sel_ok, "GUARD", "make_interaction_term|xy-iff-XY", "XY exchange iff the interaction is 'XY', van der Waals otherwise", "the interaction selection changed", E.where(mit))
-    skip_ok = False
-    for n in own_nodes(mit):
-        if isinstance(n, ast.If) and isinstance(n.body[0], ast.Continue):
-            t = norm(n.test).replace('"', "'")
-            skip_ok = "masked and self._interaction == 'XY' and (q1 in self.samples_obj._slm_mask.targets or q2 in self.samples_obj._slm_mask.targets)" in t and "self._bad_atoms[q1] or self._bad_atoms[q2]" in t
-    rep.check(skip_ok, "GUARD", "make_interaction_term|masked-pairs-only-in-xy", "pairs with a masked atom are decoupled only while masked and in XY", "the pair-skipping condition changed", E.where(mit))
-    dig_ok = any(isinstance(n, ast.If) and "'digital' not in self.basis_name" in norm(n.test).replace('"', "'") and "effective_size > 1" in norm(n.test) for n in own_nodes(ch))
+    skip_ok = bool(cx) and bool(cv)
+    for l in cx + cv:
+        q1, q2 = arg(l, 0), arg(l, 1)
+        cj = sym.conj_of(l.cond)
+        masked = any(is_(x, "not (masked and self._interaction == 'XY' and (Q_a in self.samples_obj._slm_mask.targets or Q_b in self.samples_obj._slm_mask.targets))", {"Q_a": q1, "Q_b": q2}) is not None for x in cj)
+        bad = all(any(is_(x, "not self._bad_atoms[Q_q]", {"Q_q": q}) is not None for x in cj) for q in (q1, q2))
+        skip_ok = skip_ok and masked and bad and q1 is not None and q1 != q2
+    rep.check(skip_ok, "GUARD", "make_interaction_term|masked-pairs-only-in-xy", "pairs with a badly prepared atom are skipped; pairs with a masked atom are decoupled only while masked and in XY", "the pair-skipping condition changed", E.where(mit))
+    Sc2 = S(E, ch)
+    mic = [l for l in Sc2.log if l.fn == ch.short and l.kind == "call" and l.target == ("name", "make_interaction_term")]
+    dig_ok = bool(mic) and all(any(is_(x, "'digital' not in self.basis_name") is not None for x in sym.conj_of(l.cond)) and any(is_(x, "Q_n > 1") is not None for x in sym.conj_of(l.cond)) for l in mic)
     rep.check(dig_ok, "GUARD", "_construct_hamiltonian|interaction-iff-not-digital", "interaction built iff the Rydberg/XY states are in the basis", "the condition for building the interaction changed", E.where(ch))
-    slm_ok = any(isinstance(n, ast.If) and "_slm_mask.end > 0" in norm(n.test) and "self._interaction == 'XY'" in norm(n.test).replace('"', "'") for n in own_nodes(ch))
+    msk = [l for l in mic if arg(l, 0, "masked") == ("const", True)]
+    slm_ok = bool(msk) and all(any(is_(x, "self.samples_obj._slm_mask.end > 0") is not None for x in sym.conj_of(l.cond)) and any(is_(x, "self._interaction == 'XY'") is not None for x in sym.conj_of(l.cond)) for l in msk)
     rep.check(slm_ok, "GUARD", "_construct_hamiltonian|time-dependent-mask-only-xy", "the masked/unmasked interaction split exists only with an SLM mask in XY", "the SLM-mask interaction split condition changed", E.where(ch))
-    cz = [n for n in own_nodes(ch) if isinstance(n, ast.Assign) and isinstance(n.targets[0], ast.Subscript) and norm(n.targets[0].value) == "coeff" and norm(n.value) == "0"]
-    rep.check(bool(cz) and norm(cz[0].targets[0].slice).replace(" ", "") == "0:self.samples_obj._slm_mask.end", "GUARD", "_construct_hamiltonian|unmasked-off-during-mask", "full interaction switched off exactly during [0, mask end)", "the mask interval of the interaction coefficient changed", E.where(ch))
+    cz_ = [l for l in Sc2.logged("store") if l.fn == ch.short and l.target is not None and l.target[0] == "idx" and l.value == ("const", 0) and is_(unobj(l.target[1]), "np.ones(Q_n)") is not None]
+    rep.check(bool(cz_) and all(is_(l.target[2], "slice(0, self.samples_obj._slm_mask.end)") is not None for l in cz_), "GUARD", "_construct_hamiltonian|unmasked-off-during-mask", "full interaction switched off exactly during [0, mask end)", "the mask interval of the interaction coefficient changed", E.where(ch))
     rep.floor("GUARD", 5)
     return {"op_ids": op_ids}
